@@ -5,7 +5,7 @@
 set -u
 ID=$1; V=$2; SD=${3:-/tmp/seeds/$ID/$V}
 D=$(mktemp -d /tmp/seedeval.XXXXXX)
-git -C /repo archive HEAD | tar -x -C "$D"
+git -C /repo archive ${BASE:-HEAD} | tar -x -C "$D"
 cd "$D" && git init -q . && git add -A >/dev/null && git -c user.email=a@b -c user.name=x commit -qm base >/dev/null
 res() { echo "$1" ; }
 DEMO_CLEAN=$(cd "$SD" && PYTHONPATH="$D" timeout 900 /venv/bin/python -W ignore demo.py >/tmp/seedeval.$$.clean 2>&1; echo $?)
